@@ -355,8 +355,8 @@ func PropC13(c *vs.Case, f Factory, kind string) error {
 	if t2 := env.SyncFresh(); t2.Panic != "" {
 		return vs.Violf("C13/panic", "panic in the sync after a malformed answer (%s): %s", desc, t2.Panic)
 	}
-	if len(env.CacheViolations) > 0 {
-		return vs.Violf("C17/cache-mutated", "shared cache objects changed during a sync: %v", env.CacheViolations)
+	if v := env.SharedStateViolation(); v != nil {
+		return v
 	}
 	return nil
 }
